@@ -18,6 +18,23 @@ def register(*props):
     return deco
 
 
+def rle(sched):
+    """run-length form of a schedule string for messages"""
+    out = []
+    prev = None
+    n = 0
+    for x in sched.split(','):
+        if x == prev:
+            n += 1
+        else:
+            if prev is not None:
+                out.append('%sx%d' % (prev, n) if n > 1 else prev)
+            prev, n = x, 1
+    if prev is not None:
+        out.append('%sx%d' % (prev, n) if n > 1 else prev)
+    return ' '.join(out)
+
+
 def finish(prop, tier, seed, res, wall):
     viol = res.get('violations', [])
     known = 0
@@ -450,7 +467,7 @@ def stream_check(prop, tier, seed, plan, proj, spec_name, cfg_name, describe, st
         cls, ptext = prog_text[ex.prog]
         bad = h[r['line']] if r['line'] < len(h) else {'e': 'end-of-stream'}
         desc, sig = describe(ex, h, r['line'], bad)
-        violations.append({'desc': '%s: program %s (schedule %s): %s' % (prop, ex.prog, ex.sched, desc),
+        violations.append({'desc': '%s: program %s (schedule %s): %s' % (prop, ex.prog, rle(ex.sched), desc),
                            'signature': ['cls:' + cls] + sig,
                            'replay': {'kind': 'lock-stream', 'cls': cls, 'program': ptext, 'schedule': ex.sched, 'n': 4,
                                       'spec': spec_name}})
@@ -536,7 +553,7 @@ def thread_check(prop, tier, seed, plan, proj, spec_name, cfg_path, describe, st
         n, ptext = prog_text[ex.prog]
         bad = h[r['line']] if r['line'] < len(h) else {'e': 'end-of-stream'}
         desc, sig = describe(ex, h, r['line'], bad)
-        violations.append({'desc': '%s: program %s (capacity %d, schedule %s): %s' % (prop, ex.prog, n, ex.sched, desc),
+        violations.append({'desc': '%s: program %s (capacity %d, schedule %s): %s' % (prop, ex.prog, n, rle(ex.sched), desc),
                            'signature': ['cap:%d' % n] + sig,
                            'replay': {'kind': 'thread', 'program': ptext, 'schedule': ex.sched, 'n': n, 'spec': spec_name}})
     cov = {
@@ -652,4 +669,201 @@ def check_c15(prop, tier, seed):
     res = thread_check(prop, tier, seed, id_plan(tier), id_history, 'IdAbsTrace.tla', id_cfg(['CkHeartbeat'], prop), id_describe)
     res['assumptions'] = ID_ASSUME + ['the harness keeps a copy of every heartbeat handed out and evaluates expired() of all earlier '
                                       "owners' heartbeats at the moment GetThreadID returns an ID"]
+    return res
+
+
+# ------------------------------------------------------------------------------------------------
+# EpochManager (C04, C16, C17, C20)
+# ------------------------------------------------------------------------------------------------
+EP_FIELDS = ('t', 'ep', 'cur', 'min', 'v', 'haslist', 'pn', 'ecap')
+EP_EVENTS = ('cfg', 'gcall', 'gret', 'relist', 'uaf', 'dcall', 'dret', 'fcall', 'fdone', 'fobs', 'cur', 'min', 'mgrdead',
+             'tend', 'texit')
+
+
+def epoch_history(ex, ptext=None):
+    out = []
+    for e in ex.events:
+        k = e.get('e')
+        if k in EP_EVENTS:
+            o = {'e': k, 'list': e.get('list', [])}
+            for f in EP_FIELDS:
+                o[f] = e.get(f, -1)
+            out.append(o)
+    if ex.status != 'ok':
+        o = {'e': 'stuck', 'list': []}
+        for f in EP_FIELDS:
+            o[f] = -1
+        out.append(o)
+    return out
+
+
+def epoch_cfg(switches, prop):
+    workdir = os.path.join(OUT, 'work', prop)
+    os.makedirs(workdir, exist_ok=True)
+    sub = {k: ('TRUE' if k in switches else 'FALSE') for k in ('CkPin', 'CkMono', 'CkList', 'CkSeq')}
+    return vlib.write_cfg(os.path.join(SPEC, 'cfg', 'EpochAbsTrace.tpl.cfg'), sub, os.path.join(workdir, 'epoch.cfg'))
+
+
+def epoch_describe(ex, h, line, bad):
+    k = bad.get('e')
+    info = {a: b for a, b in bad.items() if b not in (-1, [])}
+    if k == 'fobs':
+        d = 'after ForwardGlobalEpoch the coordinator observed current=%s min=%s list=%s, which the abstract epoch manager does not allow here' % (bad.get('cur'), bad.get('min'), bad.get('list'))
+    elif k == 'uaf':
+        d = 'a guard holder reached a protected-list node that had been freed'
+    elif k == 'gret':
+        d = 'guard creation returned epoch %s with list %s' % (bad.get('ep'), bad.get('list'))
+    elif k == 'relist':
+        d = 'the list of a live guard changed to %s' % (bad.get('list'),)
+    elif k == 'stuck':
+        d = 'the execution did not complete (status %s)' % ex.status
+    else:
+        d = 'unexplained event %s' % info
+    # stall signature for the known finding D6: a worker preempted inside guard creation / the list walk while the
+    # coordinator ran >= 256 forwards
+    sig = ['ev:' + str(k), 'status:' + ex.status]
+    nf = 0
+    maxf = 0
+    inside = False
+    for e in h[:line + 1]:
+        if e['e'] == 'gcall':
+            inside = True
+            nf = 0
+        elif e['e'] == 'gret':
+            inside = False
+        elif e['e'] == 'fdone' and inside:
+            nf += 1
+            maxf = max(maxf, nf)
+    if maxf >= 256:
+        sig.append('stall>=256-forwards-inside-guard-creation')
+    return d, sig
+
+
+def ep_prog(name, n, threads, params='', hashes=None):
+    hp = ' hash=%s' % ','.join(str(x) for x in hashes) if hashes else ''
+    return 'P %s cap=%d epoch%s%s | %s' % (name, n, hp, (' ' + params) if params else '', ' | '.join(threads))
+
+
+def epoch_programs(tier, which):
+    q = tier == 'quick'
+    plan = []
+    if 'pin' in which:
+        progs = [ep_prog('ep_pin_a', 3, ['G CUR D G D', 'G D', 'F F F']),
+                 ep_prog('ep_pin_b', 3, ['G MIN CUR D', 'GL RL D', 'F F']),
+                 ep_prog('ep_pin_c', 3, ['G D G D', 'G D', 'F F F F'], hashes=[0, 0, 0])]
+        plan.append((3, progs, dict(pb=2 if q else 3, max_exec=5000 if q else 60000)))
+        # ID reuse: two workers compete for the single worker slot of a capacity-2 manager
+        progs = [ep_prog('ep_reuse_a', 2, ['G D', 'G CUR D', 'F F F'], hashes=[0, 0, 1]),
+                 ep_prog('ep_reuse_b', 2, ['G D', 'G D', 'F F'], hashes=[1, 1, 1]),
+                 ep_prog('ep_reuse_c', 2, ['F F F', 'G D', 'GL RL D'], hashes=[0, 1, 1])]
+        plan.append((2, progs, dict(pb=2 if q else 3, max_exec=6000 if q else 60000)))
+    if 'mono' in which:
+        progs = [ep_prog('ep_mono_a', 3, ['CUR MIN G CUR D MIN CUR', 'G D', 'F F F || F || CUR MIN']),
+                 ep_prog('ep_mono_b', 3, ['MIN CUR MIN CUR', 'CUR G D', 'F F'])]
+        plan.append((3, progs, dict(pb=2 if q else 3, max_exec=5000 if q else 60000)))
+        plan.append((3, [ep_prog('ep_cross_a', 3, ['CUR G CUR D MIN', 'G D', 'FQ:254 F F F'])], dict(pb=1, max_exec=60 if q else 400)))
+    if 'list' in which:
+        progs = [ep_prog('ep_list_a', 3, ['GL RL D GL RL D', 'G D', 'F F F']),
+                 ep_prog('ep_list_b', 3, ['GL RL RL D', 'GL RL D', 'F F'])]
+        plan.append((3, progs, dict(pb=2 if q else 3, max_exec=5000 if q else 60000)))
+        # a worker stalled at any of its steps while the coordinator creates and retires 256-epoch list nodes
+        # (the oldest list node is never retired, so the stalled epoch must lie in a younger node: forward past 512 first)
+        plan.append((3, [ep_prog('ep_stall_a', 3, ['BAR:1:2 GL RL D', 'FQ:270 BAR:1:2 FQ:520 F']),
+                         ep_prog('ep_stall_b', 3, ['BAR:1:2 G D GL RL D', 'FQ:300 BAR:1:2 FQ:300 F FQ:300 F'])],
+                     dict(pb=1 if q else 2, max_exec=60 if q else 600)))
+        plan.append((3, [ep_prog('ep_cross_b', 3, ['GL RL D GL RL D', 'FQ:253 F F F F'])], dict(pb=1, max_exec=60 if q else 400)))
+    return plan
+
+
+EPOCH_ASSUME = ['one coordinator thread; at most one guard per thread at a time (the library keeps one Epoch per thread)',
+                'worker and coordinator threads are real OS threads under the baton scheduler; scheduling points at every atomic '
+                'operation and at the guarded hooks (heartbeat re-binding, slot scan, list-node retirement, list walk hops)',
+                'list-node capacity is the compiled 256; node boundaries are crossed with bulk forwards that are not branching points',
+                'sequentially consistent interleavings; the plain (non-atomic) accesses of the manager are not reordered']
+
+
+@register('C04')
+def check_c04(prop, tier, seed):
+    res = thread_check(prop, tier, seed, epoch_programs(tier, ('pin',)), epoch_history, 'EpochAbsTrace.tla',
+                       epoch_cfg(['CkPin'], prop), epoch_describe, statuses=('ok', 'stuck'))
+    res['assumptions'] = EPOCH_ASSUME
+    return res
+
+
+@register('C16')
+def check_c16(prop, tier, seed):
+    res = thread_check(prop, tier, seed, epoch_programs(tier, ('mono', 'pin')), epoch_history, 'EpochAbsTrace.tla',
+                       epoch_cfg(['CkMono'], prop), epoch_describe, statuses=('ok', 'stuck'))
+    res['assumptions'] = EPOCH_ASSUME
+    return res
+
+
+@register('C17')
+def check_c17(prop, tier, seed):
+    res = thread_check(prop, tier, seed, epoch_programs(tier, ('list',)), epoch_history, 'EpochAbsTrace.tla',
+                       epoch_cfg(['CkList'], prop), epoch_describe, statuses=('ok', 'stuck'))
+    res['assumptions'] = EPOCH_ASSUME
+    return res
+
+
+def seq_epoch_programs(n_prog, seed, workers=3, steps=28, max_forwards=2600):
+    """sequential histories: exactly one thread is enabled at any time (TURN/NEXT hand-shake); guards pinned across
+    many 256-epoch node boundaries, released in varying order"""
+    import random
+    rnd = random.Random(seed)
+    out = []
+    for k in range(n_prog):
+        ths = [[] for _ in range(workers + 1)]     # last = coordinator
+        has = [False] * workers
+        turn = 0
+        fw = 0
+
+        def emit(t, ops):
+            nonlocal turn
+            ths[t].append('TURN:%d %s NEXT' % (turn, ops))
+            turn += 1
+        style = rnd.choice(('short', 'long', 'mixed'))
+        for _ in range(steps):
+            r = rnd.random()
+            if r < 0.45:
+                if style == 'short':
+                    n = rnd.choice((0, 0, 1, 2, 5))
+                elif style == 'long':
+                    n = rnd.choice((100, 255, 256, 257, 300, 511))
+                else:
+                    n = rnd.choice((0, 1, 3, 60, 254, 255, 256, 258, 400))
+                if fw + n + 1 > max_forwards:
+                    n = 0
+                fw += n + 1
+                emit(workers, ('FQ:%d ' % n if n else '') + 'F')
+            else:
+                w = rnd.randrange(workers)
+                if has[w]:
+                    if rnd.random() < 0.6:
+                        emit(w, 'RL D' if rnd.random() < 0.5 else 'D')
+                        has[w] = False
+                    else:
+                        emit(w, rnd.choice(('RL', 'CUR', 'MIN')))
+                else:
+                    emit(w, rnd.choice(('G', 'GL', 'GL RL')))
+                    has[w] = True
+        for w in range(workers):
+            if has[w]:
+                emit(w, 'D')
+        emit(workers, 'F')
+        emit(workers, 'F')
+        out.append(ep_prog('ep_seq%d_%d' % (seed, k), workers + 1, [' '.join(t) if t else 'CUR' for t in ths]))
+    return out
+
+
+@register('C20')
+def check_c20(prop, tier, seed):
+    q = tier == 'quick'
+    plan = [(4, seq_epoch_programs(16 if q else 120, seed * 7 + 1), dict(pb=0, max_exec=2)),
+            (3, seq_epoch_programs(8 if q else 60, seed * 7 + 2, workers=2, steps=20), dict(pb=0, max_exec=2))]
+    res = thread_check(prop, tier, seed, plan, epoch_history, 'EpochAbsTrace.tla', epoch_cfg(['CkSeq', 'CkMono'], prop),
+                       epoch_describe, statuses=('ok', 'stuck'))
+    res['assumptions'] = EPOCH_ASSUME + ['sequential histories: a TURN/NEXT hand-shake in the harness lets exactly one thread run at a '
+                                         'time; histories are generated from VERIF_SEED',
+                                         'list nodes = over-aligned allocations counted through the replaced operator new/delete']
     return res
